@@ -167,6 +167,10 @@ def parseSteps (st : String) : List Op :=
   if nth f 0 == "X" then
     [.umount (pathName (nth f 1)),
      .mount (parseBk (nth f 3) (nth f 5) (nth f 6)) (pathName (nth f 2)) (parseMap (nth f 4))]
+  else if nth f 0 == "Y" then
+    -- `Y:<umount path>:<uid>:<gid>:<pseudo parent>:<hex name>`: umount, then the LOOKUP
+    (.umount (pathName (nth f 1))) ::
+      ((parseReq ["r", "lookup", nth f 2, nth f 3, nth f 4, nth f 5, "", ""]).map Op.req).toList
   else (parseStep st).toList
 
 def parseOpts (kv : List (String × String)) : Opts :=
